@@ -403,7 +403,7 @@ class Source:
 LEVELS = [["||"], ["&&"], ["==", "!=", "<", ">", "<=", ">="], ["|"], ["^"], ["&"], ["<<", ">>"], ["+", "-"],
           ["*", "/", "%"]]
 ASSIGN_OPS = {"+=", "-=", "*=", "/=", "%=", "|=", "&=", "^=", "<<=", ">>="}
-KEYWORDS = {"let", "mut", "fn", "while", "for", "unsafe", "move", "as", "else", "in", "ref", "continue", "struct",
+KEYWORDS = {"let", "mut", "fn", "while", "unsafe", "move", "as", "else", "in", "for", "ref", "continue", "struct",
             "impl", "use", "mod", "pub", "const", "static", "dyn", "where", "async", "await"}
 
 
@@ -461,7 +461,7 @@ class Parser:
             elif t.peek() == ";":
                 t.eat(";")
                 stmts.append(("expr", e))
-            elif e[0] in ("if", "match", "loop", "block"):
+            elif e[0] in ("if", "match", "loop", "block", "for"):
                 stmts.append(("expr", e))
             else:
                 raise ShapeError("statement not understood near `%s`" % t.near())
@@ -507,7 +507,10 @@ class Parser:
             t.eat("=")
             return ("assign", e, self.expr(nostruct))
         if t.peek() in ASSIGN_OPS:
-            raise ShapeError("compound assignment near `%s`" % t.near())
+            if t.peek() != "+=":
+                raise ShapeError("compound assignment near `%s`" % t.near())
+            t.eat("+=")
+            return ("opassign", "+", e, self.expr(nostruct))
         if t.peek() in ("..", "..="):
             raise ShapeError("range expression near `%s`" % t.near())
         return e
@@ -652,6 +655,16 @@ class Parser:
         if tok == "loop":
             t.eat("loop")
             return ("loop", self.block())
+        if tok == "for":
+            t.eat("for")
+            pat = t.eat()
+            if t.kind(-1) != "id" or pat in KEYWORDS:
+                raise ShapeError("for pattern near `%s`" % t.near())
+            t.eat("in")
+            lo = self.binary(0, True)
+            t.eat("..")
+            hi = self.binary(0, True)
+            return ("for", pat, lo, hi, self.block())
         if kind == "life":
             raise ShapeError("labelled block / loop")
         if kind == "num":
@@ -816,6 +829,12 @@ def coq_type(ty):
         return "(list Z)"
     if ty == "cursor":
         return "cursor"
+    if ty == "pool":
+        return "pool"
+    if ty == "mutbuf":
+        return "Z"
+    if isinstance(ty, tuple) and ty[0] == "iter":
+        return "(list %s)" % coq_type(ty[1])
     if isinstance(ty, tuple) and ty[0] == "struct":
         return "src_" + ty[2]
     if isinstance(ty, tuple) and ty[0] == "option":
@@ -831,9 +850,9 @@ class Val:
 
 
 class Sig:
-    def __init__(self, coq, params, ret, mode, fuel, inout, dicts):
+    def __init__(self, coq, params, ret, mode, fuel, inout, dicts, oracle=False):
         self.coq, self.params, self.ret, self.mode = coq, params, ret, mode
-        self.fuel, self.inout, self.dicts = fuel, inout, dicts
+        self.fuel, self.inout, self.dicts, self.oracle = fuel, inout, dicts, oracle
 
 
 class Cx:
@@ -849,6 +868,7 @@ class Cx:
         self.fieldov = {}
         self.used = None
         self.fuelbox = [False]
+        self.oraclebox = [False]
         self.mut_self = False
         self.n = [0]
         self.coq = None
@@ -1078,9 +1098,9 @@ class Compiler:
             if isinstance(ty, tuple) and ty[0] == "mutref":
                 ty, mut = ty[1], True
                 inout.append(p[0])
-            elif "mut" in p[2:]:
+            elif "mut" in p[2:] and ty != "mutbuf":
                 raise ShapeError("&mut parameter of %s" % f.label())
-            if mut and ty not in ("bytes", "cursor"):
+            if mut and ty not in ("bytes", "cursor", "pool"):
                 raise ShapeError("mutable parameter %s of %s" % (p[0], f.label()))
             cx.env[p[0]] = ("v_" + p[0], ty, mut)
             params.append((p[0], ty))
@@ -1107,10 +1127,12 @@ class Compiler:
         rt = coq_type(val_ty)
         if inout:
             rt = "(%s * %s)" % (rt, " * ".join(coq_type(cx.env[n][1]) for n in inout))
+        if cx.oraclebox[0]:
+            coq_params = ["(res : Z -> option Z)"] + coq_params
         if cx.fuelbox[0]:
             coq_params = ["(fuel : nat)"] + coq_params
         self.emit(cx.coq, dict_params + coq_params, "outcome %s" % rt, term)
-        return Sig(cx.coq, params, cx.ret, "outcome", cx.fuelbox[0], inout, dicts)
+        return Sig(cx.coq, params, cx.ret, "outcome", cx.fuelbox[0], inout, dicts, cx.oraclebox[0])
 
     def emit(self, name, params, rty, term):
         self.out.append("Definition %s %s: %s :=\n  %s." % (name, "".join(p + " " for p in params), rty, term))
@@ -1606,8 +1628,10 @@ class Compiler:
             terms.append(a.term)
         if sig.fuel:
             cx.fuelbox[0] = True
-        head = "%s%s%s%s" % (sig.coq, " fuel" if sig.fuel else "", "".join(" " + d for d in dict_terms),
-                             "".join(" " + t for t in terms))
+        if sig.oracle:
+            cx.oraclebox[0] = True
+        head = "%s%s%s%s%s" % (sig.coq, " fuel" if sig.fuel else "", " res" if sig.oracle else "",
+                               "".join(" " + d for d in dict_terms), "".join(" " + t for t in terms))
         if sig.mode == "pure":
             return Val(binds, "(%s)" % head, sig.ret)
         if isinstance(sig.ret, tuple) and sig.ret[0] == "result":
@@ -1625,7 +1649,8 @@ class Compiler:
             if isinstance(ty, tuple):
                 return tuple(sub(x) if isinstance(x, tuple) else x for x in ty)
             return ty
-        return Sig(sig.coq, [(n, sub(t)) for n, t in sig.params], sub(sig.ret), sig.mode, sig.fuel, sig.inout, sig.dicts)
+        return Sig(sig.coq, [(n, sub(t)) for n, t in sig.params], sub(sig.ret), sig.mode, sig.fuel, sig.inout, sig.dicts,
+                   sig.oracle)
 
     def dict_terms(self, sig, actual, cx):
         """the trait methods of `actual` for the type variable of a generic function"""
